@@ -155,4 +155,76 @@ def _compare(res, replay, snaps, leave_out, judged, what):
             return
 
 
-explore, execute = sessioncheck.make(PROFILES, MONITORS, PROPERTY, differential=differential)
+def finale(U, interp, env, mem, res):
+    """'Equal to the original' also means: behaves like it.  The run is over, so the harness may
+    use the objects up: for every whole-tree copy (clone of a Document or of a parentless
+    Section, children included) that is still snapshot-equal to its original, the same calls -
+    clean(), and for Documents finalize() then clean() - are made on both; after each call the
+    two trees must still be equal (ids ignored) and must have answered alike."""
+    from simkit.monitors import nested, subtree_indices
+    from simkit.universe import kind_of
+    info = res.extra.get("steps_info") or []
+    pairs = []
+    for st in info:
+        if st["op"] != "clone" or st["outcome"] != "ret" or st.get("new") is None:
+            continue
+        op = res.case["ops"][st["step"]]
+        if not op.get("children", True) or len(st["arg_idx"]) != 1:
+            continue
+        pairs.append((st["arg_idx"][0], st["new"], st["step"]))
+    if not pairs:
+        return None
+    last = U.snapshot()
+    probed = 0
+    for ix, ic, at in pairs[-3:]:
+        if ix >= len(U.objs) or ic >= len(U.objs):
+            continue
+        # original and copy as the copy op left them: no later op was given one of their objects
+        mine = set(subtree_indices(last, ix)) | set(subtree_indices(last, ic))
+        if any(st["step"] > at and mine & set(st["arg_idx"]) for st in info):
+            continue
+        orig, copy = U.objs[ix], U.objs[ic]
+        if kind_of(orig) not in ("doc", "sec") or kind_of(orig) != kind_of(copy):
+            continue
+        if any(kind_of(o) == "sec" and o.parent is not None for o in (orig, copy)):
+            continue
+        if U.links_cyclic(orig) if kind_of(orig) == "doc" else False:
+            continue
+        calls = [["clean"]] if kind_of(orig) == "sec" else [["clean"], ["finalize", "clean"]]
+        for seq in calls:
+            snap = U.snapshot()
+            if nested(snap, ix, with_ids=False) != nested(snap, ic, with_ids=False):
+                break           # edited apart since the copy was made: nothing to compare
+            flags = [[snap["objs"][i].get("merged") for i in subtree_indices(snap, top)]
+                     for top in (ix, ic)]
+            if flags[0] != flags[1]:
+                break           # one side was merged (or cleaned) since: no longer the same state
+            for call in seq:
+                answers = []
+                for obj in (orig, copy):
+                    env.fuel[0] = 1000
+                    try:
+                        getattr(obj, call)()
+                        answers.append("returned")
+                    except Exception as exc:
+                        answers.append(type(exc).__name__)
+                    finally:
+                        env.fuel[0] = None
+                U.rediscover()
+                snap = U.snapshot()
+                probed += 1
+                if answers[0] != answers[1]:
+                    return ("copy.behaves-equal", "%s() on the original %s, on its equal copy %s" %
+                            (call, answers[0], answers[1]))
+                a, b = nested(snap, ix, with_ids=False), nested(snap, ic, with_ids=False)
+                if a != b:
+                    keys = [k for k in sorted(set(a) | set(b)) if a.get(k) != b.get(k)]
+                    return ("copy.behaves-equal", "after %s() on both, the copy (obj#%d) is no longer "
+                            "equal to its original (obj#%d): they differ in %r" %
+                            ("(), ".join(seq[:seq.index(call) + 1]), ic, ix, keys))
+    res.stats["behaviour_probes"] = res.stats.get("behaviour_probes", 0) + probed
+    return None
+
+
+explore, execute = sessioncheck.make(PROFILES, MONITORS, PROPERTY, differential=differential,
+                                     finale=finale)
